@@ -114,7 +114,8 @@ void runProg(Prog& pr) {
         else if (what == 2) { G.blockedIn[me] = 1; bool ok = G.sem->wait(); G.blockedIn[me] = 0; if (ok) { ++G.semSuccess; if (G.semSuccess > G.semInitial + G.semSignals) failC("semaphore:count", "more successful waits than initial value plus signals"); } }
         else if (what == 3 || what == 4) {
           long long t0 = nowMs(); long long timeout = 1 + arg % 3000;
-          if (arg % 13 == 7) { timeout = (arg & 1) ? 0x7fffffffffffffffLL : 10000000000000LL; vs::childLabel("practically_infinite_timeout"); }   // behaves like an untimed wait
+          if (arg % 13 == 7) { timeout = (arg & 1) ? 0x7fffffffffffffffLL : 10000000000000LL; vs::childLabel("practically_infinite_timeout"); }
+          else if (arg % 5 == 2) { long long ms = nowMs() % 1000; long long comp = 1000 - ms - (arg & 1); if (comp >= 1 && comp <= 999) { timeout = comp; vs::childLabel("timeout_complementing_the_clock"); } }   // now + time-out = a whole second   // behaves like an untimed wait
           G.blockedIn[me] = timeout > 100000000 ? 1 : 0;
           bool ok = G.sem->wait((int64)timeout);
           G.blockedIn[me] = 0;
@@ -134,6 +135,7 @@ void runProg(Prog& pr) {
         } else {
           long w0 = G.tick++; long long t0 = nowMs(); long long timeout = 1 + arg % 3000;
           if (arg % 13 == 7) { timeout = (arg & 1) ? 0x7fffffffffffffffLL : 10000000000000LL; vs::childLabel("practically_infinite_timeout"); }
+          else if (arg % 5 == 2) { long long ms = nowMs() % 1000; long long comp = 1000 - ms - (arg & 1); if (comp >= 1 && comp <= 999) { timeout = comp; vs::childLabel("timeout_complementing_the_clock"); } }   // now + time-out = a whole second
           G.blockedIn[me] = timeout > 100000000 ? 1 : 0;
           bool ok = G.sig->wait((int64)timeout);
           G.blockedIn[me] = 0;
@@ -150,6 +152,7 @@ void runProg(Prog& pr) {
           if (what == 0) { G.blockedIn[me] = 1; ok = G.mon->wait(); G.blockedIn[me] = 0; if (!ok) failC("monitor:wait-false", "untimed wait returned false"); }
           else { long long t0 = nowMs(); long long timeout = 1 + arg % 3000;
             if (arg % 13 == 7) { timeout = (arg & 1) ? 0x7fffffffffffffffLL : 10000000000000LL; vs::childLabel("practically_infinite_timeout"); }
+          else if (arg % 5 == 2) { long long ms = nowMs() % 1000; long long comp = 1000 - ms - (arg & 1); if (comp >= 1 && comp <= 999) { timeout = comp; vs::childLabel("timeout_complementing_the_clock"); } }   // now + time-out = a whole second
             G.blockedIn[me] = timeout > 100000000 ? 1 : 0; ok = G.mon->wait((int64)timeout); G.blockedIn[me] = 0; if (!ok) { long long el = nowMs() - t0; if (el < timeout) { char d[160]; snprintf(d, sizeof d, "wait(%lld ms) returned false after %lld ms of virtual time", timeout, el); failC("monitor:early-timeout", d); } vs::childLabel("timed_wait_timeout"); } }
           if (what == 0) --G.monInWait;
           if (ok) { ++G.monSuccess; if (G.monOutstanding > 0) --G.monOutstanding; if (G.monSuccess > G.monSetsTotal) failC("monitor:more-waits-than-sets", "successful waits outnumber set() calls"); }
